@@ -143,9 +143,38 @@ def _safe_repr(v):
     return r if len(r) < 2000 else r[:2000] + "..."
 
 
+def run_standin(job):
+    """Worker: run one stand-in natively over its cases."""
+    (modname, name, label, tier, mutations, findings, float_mode) = job
+    t0 = time.time()
+    res = _err_result(job, None)
+    res["standin"] = None
+    try:
+        importlib.import_module(modname)
+        st = [s for s in api.STANDINS if "standin:" + s.name == name and s.fn.__module__ == modname][0]
+        fixed = dict([i for i in st.instances() if i[0] == label][0][1])
+        n = 0
+        for case in st.cases(tier, **fixed):
+            n += 1
+            case = tuple(case) if isinstance(case, (tuple, list)) else (case,)
+            try:
+                st.fn(*case)
+            except BaseException as e:  # noqa: BLE001
+                nat = ("assert" if isinstance(e, AssertionError) else "raise", f"{type(e).__name__}: {e}")
+                res["vcs"].append({"kind": "stand-in", "site": st.name, "status": "refuted", "solver_s": 0.0, "detail": f"{st.kind}: native evaluation failed", "args": {"case": _safe_repr(case)}, "native": nat, "decisions": "", "_pickle": _pickle_args({"__case__": case})})
+                break
+        res["standin"] = {"name": st.name, "instance": label, "kind": st.kind, "cases": n, "bound": st.bound, "exhaustive": bool(st.exhaustive), "failed": bool(res["vcs"])}
+    except Exception as e:  # noqa: BLE001
+        res["error"] = f"CRASH {type(e).__name__}: {e}"
+    res["wall_s"] = round(time.time() - t0, 3)
+    return res
+
+
 def run_instance(job):
     """Worker: explore all paths of one lemma instance."""
     (modname, lemma_name, label, tier, mutations, findings, float_mode) = job
+    if lemma_name.startswith("standin:"):
+        return run_standin(job)
     t0 = time.time()
     cfgt = TIERS[tier]
     res = {
@@ -216,9 +245,10 @@ def run_instance(job):
                 def ev(e):
                     return m.eval(e, model_completion=True)
 
+                ev.model = m
                 out = {k: c(ev) for k, c in concs.items()}
                 if path.ghost.get("__oracle__"):
-                    out["__oracle__"] = list(path.ghost["__oracle__"])
+                    out["__oracle__"] = [x(ev) if callable(x) else x for x in path.ghost["__oracle__"]]
                 return out
 
             def record(kind, site, status, dt, detail=None, model_args=None, native=None):
@@ -387,10 +417,20 @@ def run_property(prop, tier, mutations=None, jobs=None, only=None, float_mode="f
             continue
         if only and lem.name not in only:
             continue
+        if lem.cfg.get("tier") == "thorough" and tier != "thorough" and not only:
+            continue
         for label, _ in lem.instances():
             if instances and not any(s in label for s in instances):
                 continue
             work.append((lem.fn.__module__, lem.name, label, tier, mutations or [], findings, float_mode))
+    if not mutations:
+        # stand-ins evaluate the real code natively: in-memory mutations (canaries) do not reach them
+        for st in api.STANDINS:
+            if st.prop == prop and (not only or st.name in only):
+                for label, _ in st.instances():
+                    if instances and not any(s in label for s in instances):
+                        continue
+                    work.append((st.fn.__module__, "standin:" + st.name, label, tier, [], findings, float_mode))
     if not work:
         print(f"ERROR no lemma for {prop}")
         return 3, None
@@ -487,8 +527,9 @@ def _run_pool(work, jobs, deadline_s):
 
 def summarize(prop, tier, results, wall, findings, mutations, quiet=False):
     errors = [r for r in results if r["error"]]
+    standins = [r["standin"] for r in results if r.get("standin")]
     vcs = [(r, v) for r in results for v in r["vcs"]]
-    n_total = len(vcs)
+    n_total = len([1 for r, v in vcs if v["kind"] != "stand-in"])
     refuted = [(r, v) for r, v in vcs if v["status"] == "refuted"]
     undecided = [(r, v) for r, v in vcs if v["status"] == "undecided"]
     discharged = [(r, v) for r, v in vcs if v["status"] in ("discharged", "unreachable")]
@@ -523,6 +564,8 @@ def summarize(prop, tier, results, wall, findings, mutations, quiet=False):
         lines.append("ERROR zero obligations generated")
     # non-vacuity: every lemma instance must have at least one path that returns normally
     for r in results:
+        if r.get("standin") is not None or "standin" in r:
+            continue
         if not r["error"] and not any(v["kind"] == "no-escape" and v["status"] == "discharged" for v in r["vcs"]) and not any(v["status"] == "refuted" for v in r["vcs"]):
             if code == 0:
                 code = 3
@@ -603,6 +646,8 @@ def summarize(prop, tier, results, wall, findings, mutations, quiet=False):
             "callee_contracts_used": sorted({t for r in results for t in r["contracts_used"]}),
             "known_findings_excluded": [f["id"] for f in findings],
             "samples": samples,
+            "stand_ins": standins,
+            "stand_ins_note": "stand-ins are native evaluations over an enumerated domain; they are not counted in obligations/discharged",
             "exit_code": code,
             "messages": lines[:50],
         },
@@ -648,8 +693,17 @@ def replay(path):
         print("  no concrete input recorded (no-failing-input-found)")
         return 1
     importlib.import_module(r["module"])
-    lem = [l for l in api.LEMMAS if l.name == r["lemma"] and l.fn.__module__ == r["module"]][0]
     cargs = pickle.loads(base64.b64decode(r["input_pickle_b64"]))
+    if r["lemma"].startswith("standin:"):
+        st = [s for s in api.STANDINS if "standin:" + s.name == r["lemma"]][0]
+        try:
+            st.fn(*cargs["__case__"])
+            print("  native outcome on the current tree: returned normally")
+            return 0
+        except BaseException as e:  # noqa: BLE001
+            print(f"  native outcome on the current tree: {type(e).__name__}: {e}")
+            return 1
+    lem = [l for l in api.LEMMAS if l.name == r["lemma"] and l.fn.__module__ == r["module"]][0]
     out = _native_run(lem, cargs)
     print(f"  native outcome on the current tree: {out}")
     return 1 if out[0] != "return" else 0
@@ -663,6 +717,7 @@ def main(argv=None):
     ap.add_argument("--mutate", action="append", default=[], help="SUFFIX::OLD::NEW in-memory source mutation (canary)")
     ap.add_argument("--jobs", type=int)
     ap.add_argument("--only", action="append")
+    ap.add_argument("--instances", action="append", help="substring filter on instance labels")
     ap.add_argument("--no-evidence", action="store_true")
     ap.add_argument("--no-canaries", action="store_true")
     a = ap.parse_args(argv)
@@ -672,8 +727,8 @@ def main(argv=None):
     for m in a.mutate:
         suffix, old, new = m.split("::")
         muts.append((suffix, old.encode().decode("unicode_escape"), new.encode().decode("unicode_escape")))
-    code, ev = run_property(a.prop, a.tier, muts, a.jobs, a.only)
-    if ev is not None and not muts and not a.only and not a.no_canaries and code == 0:
+    code, ev = run_property(a.prop, a.tier, muts, a.jobs, a.only, instances=a.instances)
+    if ev is not None and not muts and not a.only and not a.instances and not a.no_canaries and code == 0:
         from .canary import run_canaries
 
         ccode, cinfo = run_canaries(a.prop, a.tier, a.jobs)
@@ -681,7 +736,7 @@ def main(argv=None):
         if ccode != 0:
             code = 3
             ev["coverage"]["exit_code"] = 3
-    if ev is not None and not a.no_evidence and not muts and not a.only:
+    if ev is not None and not a.no_evidence and not muts and not a.only and not a.instances:
         write_evidence(a.prop, ev)
     sys.exit(code)
 
